@@ -116,6 +116,15 @@ func c07Units(c *Ctx) []*c07Unit {
 			if o.Expand {
 				return in.cyclicOK && !in.Cyclic && c.Thorough()
 			}
+			if !c.Thorough() && o.RemoveUnused && !o.KeepNames && o.Minimal {
+				all := len(in.Labels) > 0
+				for _, l := range in.Labels {
+					all = all && strings.Contains(l, "unused")
+				}
+				if all {
+					return true // removal of unused definitions is order-sensitive by itself
+				}
+			}
 			if !c.Thorough() && (o.RemoveUnused || o.KeepNames) {
 				return false
 			}
@@ -130,6 +139,7 @@ func c07Units(c *Ctx) []*c07Unit {
 		return strings.Contains(f.Label, "collidingImport") || strings.Contains(f.Label, "refAux") || strings.Contains(f.Label, "pointer[") ||
 			strings.Contains(f.Label, "pathBody") || strings.Contains(f.Label, "selfRecursiveAux") || strings.Contains(f.Label, "preNamed") || strings.Contains(f.Label, "twoImports") || strings.Contains(f.Label, "SameGeneratedName") || strings.Contains(f.Label, "twoPathsManglingAlike") || strings.Contains(f.Label, "pathPrefixOfAnother") ||
 			strings.Contains(f.Label, "CaseDifferent") || strings.Contains(f.Label, "NamesEqualUpTo") || strings.Contains(f.Label, "unusedAlias") || strings.Contains(f.Label, "auxDiamond") ||
+			strings.Contains(f.Label, "aliasOf") ||
 			strings.Contains(f.Label, "SameNameDifferentDirs") || strings.Contains(f.Label, "paramRefWithAuxSchema") || strings.Contains(f.Label, "pathItemRefWithAuxSchema")
 	}
 	if c.Thorough() {
@@ -151,6 +161,21 @@ func c07Units(c *Ctx) []*c07Unit {
 			}
 		}
 	}
+	// removal of unused definitions (order of the removal passes): unused chains alone and next to an unused leaf
+	if !c.Thorough() {
+		var unusedIdx []int
+		for i := range pairs {
+			if strings.Contains(pairs[i].Label, "unusedChain") || pairs[i].Label == "unusedDefinition[a/b]" {
+				unusedIdx = append(unusedIdx, i)
+				addUnits(pairs, []int{i})
+			}
+		}
+		for a := 0; a < len(unusedIdx); a++ {
+			for b := a + 1; b < len(unusedIdx); b++ {
+				addUnits(pairs, []int{unusedIdx[a], unusedIdx[b]})
+			}
+		}
+	}
 	// pairs whose members belong to sets whose order can matter: two imports, two collisions, two parents
 	// of one renamed definition, two operations sharing a body parameter, two pointers to one target
 	n := 0
@@ -160,7 +185,7 @@ func c07Units(c *Ctx) []*c07Unit {
 				continue
 			}
 			n++
-			if !c.Thorough() && n%60 != 0 {
+			if !c.Thorough() && n%150 != 0 {
 				continue // quick: every 60th order-sensitive pair; thorough: all of them
 			}
 			addUnits(pairs, []int{i, j})
@@ -177,7 +202,7 @@ func init() {
 		c.Bounds["above"] = "2n rotations of the ascending and descending orders"
 		c.Bounds["base_policies"] = 2
 		if !c.Thorough() {
-			c.Bounds["pairs"] = "every 60th pair of order-sensitive features (fixed enumeration order); thorough: all"
+			c.Bounds["pairs"] = "every 150th pair of order-sensitive features (fixed enumeration order); thorough: all"
 		}
 		units := c07Units(c)
 		c.Bounds["units(input x options)"] = len(units)
